@@ -68,27 +68,13 @@ def _model_of(cfg: dict[str, Any]) -> ref.Model:
     return ref.Model(vc.Ecu(cfg).model_dict())
 
 
-def _cfgkey(cfg: dict[str, Any]) -> str:
-    return cfg["name"]
-
-
-def _state_items(cfg: dict[str, Any], m: ref.Model) -> list[tuple[tuple[Any, ...], list[Any]]]:
-    out: list[tuple[tuple[Any, ...], list[Any]]] = []
-    for st, hist in ref.reachable_states(m, {e: vc.G["entropies"][e] for e in cfg["entropies"]}):
-        out.append((st, hist))
-        if st[1] is not None and st[2] is None:
-            # same abstract state, but the server has meanwhile forgotten the sendKey reply
-            out.append((st, hist + [("raw", "00")]))
-    return out
-
-
 def items(tier: str, seed: int) -> list[tuple[Any, ...]]:
     vc.load()
     out: list[tuple[Any, ...]] = []
     subs: list[tuple[Any, ...]] = []
     for cfg in vc.configs(tier, "C13"):
         m = _model_of(cfg)
-        sts = _state_items(cfg, m)
+        sts = vc.state_items(cfg, m)
         for st, hist in sts:
             out.append(("full", cfg, _ser(st), hist))
         # switch subsets.  quick: all 512 on the hand-built models (states at history depth <= 2 / one per session),
@@ -115,14 +101,7 @@ def items(tier: str, seed: int) -> list[tuple[Any, ...]]:
     return out + subs
 
 
-def _ser(st: tuple[Any, ...]) -> list[Any]:
-    s, lvl, p = st
-    return [s, lvl, None if p is None else [p[0], p[1].hex()]]
-
-
-def _de(st: list[Any]) -> tuple[Any, ...]:
-    s, lvl, p = st
-    return (s, lvl, None if p is None else (p[0], bytes.fromhex(p[1])))
+_ser, _de = vc.ser, vc.de
 
 
 # ---------------------------------------------------------------------------
